@@ -8,7 +8,7 @@ claimed = {
  "C18": dict(cat="exploration", ref="DESIGN.md §4 C18",
    text="Seeded search over interleavings of 2-5 simulated caller goroutines sharing read-only operands, with a simulated sync.Pool (stale/garbage/poisoned/emptied buffers) and lowered tuning knobs; memory monitors at every statement boundary show no operand, no foreign receiver and no package-level variable is written, pool and scratch-buffer ownership discipline (getDec/putDec wrapped whatever implements them) shows scratch buffers are held and written by one task at a time, and every result equals the sequential one. sync.Mutex/RWMutex/Once introduced by a change are simulated (lock operations and sync/atomic statements are preferred switch points); package-level state is reset between scenarios so that lazily built caches start cold. Sampling, not proof.",
    note="Trusted: the instrumenter (yield insertion is add-only and keeps the library's semantics), the token-passing scheduler, Go's memory model for channel hand-off. Stubbed: real sync.Pool, Go scheduler, true parallelism (sub-statement torn reads are unreachable). Arithmetic correctness of one sequential execution is assumed.",
-   tech="deterministic simulation: seeded cooperative scheduler over statement-level yield points + simulated sync.Pool with fault injection; sequential-equivalence oracle and memory monitors"),
+   tech="deterministic simulation: seeded cooperative scheduler over statement-level yield points (plus scheduling points at lock operations and between the operands of sync/atomic calls and the call) + simulated sync.Pool with fault injection; sequential-equivalence oracle, memory monitors at every yield, write-protected (mprotect) operand memory"),
 }
 
 TRUST = "Trusted: the instrumenter (add-only yield insertion), the simulated pool, the harness' own observation code (digits decoded from BitsExp independently of the library's formatting). Stubbed: sync.Pool. Sampling, not proof; correct rounding of single operations (C01-C05) is assumed where an oracle compares the library with itself."
@@ -24,7 +24,7 @@ claimed.update({
    note=TRUST, tech="deterministic simulation of API histories; statement-level yield hook used as a memory monitor (operand images at every statement boundary) + executable attribute model"),
  "C10": dict(cat="exploration", ref="DESIGN.md §4 C10",
    text="Shadow execution: every step of a live history (aliased receiver/operands, receiver carrying whatever buffer, stale words, value, sign and accuracy the history left, scratch pool handing out stale/garbage/poisoned buffers) is repeated on fresh, completely de-aliased memory with a clean pool; both must agree on value, sign, precision, mode, accuracy, return values and panics.",
-   note=TRUST, tech="deterministic simulation of API histories with simulated sync.Pool faults; differential shadow execution on fresh memory as oracle"),
+   note=TRUST, tech="deterministic simulation of API histories with simulated sync.Pool faults; differential shadow execution on fresh memory (also from a cold start of the package-level state and on operands rebuilt from their observable value) as oracle"),
  "C19": dict(cat="exploration", ref="DESIGN.md §4 C19",
    text="The Context latch as a state machine under faults: NaN-producing operand classes and NewFloat64(NaN) at drawn positions, foreign panics (error value, string, real runtime.Error) injected at a drawn statement inside a context call, several faults per history; checked step by step against an executable model (pending error, no-op while latched, Err() returns the first error once and re-arms, foreign panics escape and do not latch, otherwise result == bare operation on a fresh receiver carrying the context's precision and mode, and == the exact result rounded once by an independent big-integer reference for Add Sub Mul Quo FMA Sqrt Set Neg Abs; whether an operation is invalid is decided by the IEEE operand-class model, not by the library).",
    note=TRUST, tech="deterministic simulation with fault injection: failpoint at every statement (injected panics), NaN faults; executable reference model of the context latch"),
